@@ -49,6 +49,28 @@ impl Carrier {
         };
         expected_status(o, self.block_height)
     }
+    /// Contract of `in_mempool` as established by `c12_k1_in_mempool_through_outage`: one query for that id is answered
+    /// by the node; true <=> the reply is Ok without a block hash.
+    pub(crate) fn in_mempool_contract(&self, txid: &Txid) -> bool {
+        use crate::verif_bitcoind as node;
+        unsafe {
+            kani::assume(node::N_QUERIED < node::MAX_LOG);
+            node::QUERIED[node::N_QUERIED] = Some(*txid);
+            node::N_QUERIED += 1;
+            let o = match node::QUERY_SCRIPT {
+                Some(o) => o,
+                None => {
+                    if kani::any() {
+                        Outcome::Ok
+                    } else {
+                        Outcome::Rpc(-5)
+                    }
+                }
+            };
+            node::LAST_OUTCOME = Some(o);
+            o == Outcome::Ok
+        }
+    }
     pub(crate) fn verif_receipts_len(&self) -> usize {
         self.issued_receipts.len()
     }
